@@ -1,5 +1,6 @@
 import NetVerif.Proofs.Lemmas.Huffman
 import NetVerif.Proofs.Lemmas.HuffmanAcc
+import NetVerif.Proofs.Lemmas.HuffmanStride
 /-!
 C04 — Huffman coding is a canonical bijection on byte strings.
 
@@ -12,6 +13,9 @@ Main statements
 * `encode_decode`         decode v = ok s → v = encode s   (canonical: ≤ 7 bits of all-ones padding)
 * `reject_long_padding`, `reject_non_eos_padding`, `reject_eos_symbol`
 * `decodeMax_*`           the length-limited variant used by the HPACK decoder
+* `decodeBytesMax_eq_decodeMax` the byte-stride loop of `huffmanDecode` as coded (256-ary lookup
+  tree built by a transcription of `buildRootHuffmanNode`, `cur`/`cbits`/`sbits`) equals the
+  bit-level decoder; `decodeBytes_canonical`, `decodeBytes_appendHuffman` restate C04 on it
 * table obligations re-exported from `Proofs.Lemmas.Huffman`
 * `appendHuffman_eq_encode` : `AppendHuffmanEqEncodeStatement` — the 64-bit accumulator model
   `appendHuffman` of `AppendHuffmanString` (shift/or modulo 2^64, 4-byte flush at `n ≥ 32`, EOS
@@ -584,5 +588,58 @@ theorem appendHuffman_eq_encode : AppendHuffmanEqEncodeStatement := by
 /-- `HuffmanDecode(AppendHuffmanString(s)) = s` on the byte-level model of the encoder. -/
 theorem decode_appendHuffman (s : List Nat) (hs : Bytes s) : decode (appendHuffman s) = .ok s := by
   rw [appendHuffman_eq_encode s hs]; exact decode_encode s hs
+
+/-! ### The byte-stride decoder of `huffmanDecode` (256-ary lookup tree, `cbits`/`sbits`) -/
+
+/-- **Table obligation for the decoder's lookup tree**: the transcription of `buildRootHuffmanNode`,
+evaluated by the kernel on the regenerated code tables, yields exactly the 8-bit-stride view of the
+binary code tree (every slot of every node), never follows a leaf pointer, and dead ends of the
+tree are behind one-bits only. -/
+theorem table_lookup_tree :
+    Lemmas.HuffmanStride.checkNode rootTable.tbl 5 0 trie = true ∧ rootTable.ok = true ∧
+      Lemmas.HuffmanStride.checkNZ trie = true ∧ trie.isNode = true := Lemmas.HuffmanStride.rootTable_ok
+
+/-- **C04 (decoder as coded).** The byte-stride loop of `huffmanDecode` — lookup tree, `cur`
+(uint64), `cbits`/`sbits` (uint8), the `maxLen` check, the trailing `for cbits > 0` loop and the two
+padding tests — computes exactly the bit-level decoder, for every input and every `maxLen`. -/
+theorem decodeBytesMax_eq_decodeMax (m : Nat) (v : List Nat) (hv : Bytes v) :
+    decodeBytesMax m v = decodeMax m v := Lemmas.HuffmanStride.decodeBytesMax_eq m v hv
+
+theorem decodeBytes_eq_decode (v : List Nat) (hv : Bytes v) : decodeBytes v = decode v :=
+  decodeBytesMax_eq_decodeMax 0 v hv
+
+theorem packBits_bytes (bits : List Bool) : Bytes (packBits bits) := by
+  fun_induction packBits bits with
+  | case1 b0 b1 b2 b3 b4 b5 b6 b7 rest ih =>
+    intro x hx
+    rcases List.mem_cons.mp hx with rfl | hx
+    · have := Lemmas.HuffmanAcc.bitsToNat_lt [b0, b1, b2, b3, b4, b5, b6, b7]
+      simpa using this
+    · exact ih x hx
+  | case2 bits hne => intro x hx; simp at hx
+
+theorem encode_bytes (s : List Nat) : Bytes (encode s) := packBits_bytes _
+
+/-- Round trip through the two byte-level models of the Go functions:
+`huffmanDecode(AppendHuffmanString(s)) = s`. -/
+theorem decodeBytes_appendHuffman (s : List Nat) (hs : Bytes s) :
+    decodeBytes (appendHuffman s) = .ok s := by
+  rw [appendHuffman_eq_encode s hs, decodeBytes_eq_decode _ (encode_bytes s)]
+  exact decode_encode s hs
+
+/-- Canonicity for the decoder as coded: whatever `huffmanDecode` accepts is exactly
+`AppendHuffmanString` of its output. -/
+theorem decodeBytes_canonical (v s : List Nat) (hv : Bytes v) (h : decodeBytes v = .ok s) :
+    v = appendHuffman s ∧ Bytes s := by
+  rw [decodeBytes_eq_decode v hv] at h
+  obtain ⟨h1, h2⟩ := encode_decode v s hv h
+  exact ⟨by rw [appendHuffman_eq_encode s h2]; exact h1, h2⟩
+
+/-- The length limit of the decoder as coded. -/
+theorem decodeBytesMax_ok (m : Nat) (v s : List Nat) (hv : Bytes v) (h : decodeBytesMax m v = .ok s) :
+    decodeBytes v = .ok s ∧ (m ≠ 0 → s.length ≤ m) := by
+  rw [decodeBytesMax_eq_decodeMax m v hv] at h
+  rw [decodeBytes_eq_decode v hv]
+  exact decodeMax_ok m v s h
 
 end NetVerif.Proofs.C04
